@@ -201,6 +201,15 @@ func rulePairDirect(c *Ctx) {
 				return nil
 			}
 			if !nonNil {
+				// the nil error of a get-access continuation: the grant
+				if prm, isP := r.V.(*ssa.Parameter); isP && r.Fr != nil && r.Fr.Via == "CanGet" && prm.Parent() == r.Fr.Fn {
+					return []Ev{{Kind: "granted"}}
+				}
+				if call, isC := r.V.(*ssa.Call); isC {
+					if f := calleeFunc(call.Common()); f != nil && f == canGet {
+						return []Ev{{Kind: "granted"}}
+					}
+				}
 				return nil
 			}
 			// error handed to a continuation by a combinator, sub.Error(), access.CanGet()
@@ -276,6 +285,11 @@ func rulePairDirect(c *Ctx) {
 			case keep && !fail:
 				if rel != 0 {
 					bad = "success path releases the subscription it reports as held: " + tr.FmtPath(path)
+				}
+				// a direct subscription that is kept is one the service granted get access to, for this request:
+				// being already sent to the client (through a reference) is not a grant
+				if bad == "" && !hasKind(path, "granted") && !hasKind(path, "escape") {
+					bad = "a direct subscription is kept on a path that did not pass a get grant: the client holds (and keeps receiving the events of) a resource no access answer allowed: " + tr.FmtPath(path)
 				}
 			default:
 				if rel != 1 {
@@ -503,6 +517,7 @@ func rulePairCacheCount(c *Ctx) {
 	removeCount := p.Method("rescache.EventSubscription.removeCount")
 	addSubscriber := p.Method("rescache.EventSubscription.addSubscriber")
 	esType := p.Named("rescache.EventSubscription")
+	fMqSub := p.Field("rescache.EventSubscription.mqSub")
 
 	countEvents := func(t *Tracer, fr *Frame, in ssa.Instruction) []Ev {
 		switch x := in.(type) {
@@ -613,6 +628,9 @@ func rulePairCacheCount(c *Ctx) {
 				}
 				return nil
 			}
+			if st, ok := isStoreToT(t, fr, in, fMqSub); ok && !isNilConst(st.Val) {
+				return []Ev{{Kind: "mqSub="}}
+			}
 			// a nested acquirer is decided on its own: it counts one use when it succeeds
 			if call, ok := isCallTo(in, acqFuncs...); ok && fr == t.RootFr {
 				if sf := call.Common().StaticCallee(); sf != nil && sf != acqFn && acquirers[sf] < 0 {
@@ -623,11 +641,19 @@ func rulePairCacheCount(c *Ctx) {
 		}
 		sp.Branch = func(t *Tracer, fr *Frame, i *ssa.If, dir bool) []Ev {
 			r := t.Resolve(fr, i.Cond)
-			if fr == t.RootFr && dir {
+			if fr == t.RootFr {
 				for _, prm := range acqFn.Params {
 					if b, ok := prm.Type().Underlying().(*types.Basic); ok && b.Kind() == types.Bool && r.V == ssa.Value(prm) {
-						return []Ev{{Kind: "subscribe=true"}}
+						if dir {
+							return []Ev{{Kind: "subscribe=true"}}
+						}
+						return []Ev{{Kind: "subscribe=false"}}
 					}
+				}
+			}
+			if x, nn, ok := nilTest(i, dir); ok && nn && fMqSub != nil {
+				if f, _ := fieldLoad(t.Resolve(fr, x).V); f == fMqSub {
+					return []Ev{{Kind: "has-mqsub"}}
 				}
 			}
 			return nil
@@ -641,7 +667,8 @@ func rulePairCacheCount(c *Ctx) {
 		tr := NewTracer(p, sp, acqFn)
 		tr.Run()
 		c.inst(1)
-		badOK, badErr, badSub := "", "", ""
+		badOK, badErr, badSub, badMq := "", "", "", ""
+		subscribes := ei >= 0 // an acquirer that can fail is one that subscribes
 		for _, path := range tr.Paths {
 			net, ret, sub := 0, "", false
 			for _, e := range path {
@@ -667,6 +694,10 @@ func rulePairCacheCount(c *Ctx) {
 			if ret == "return:err" && hasBool && !sub {
 				badSub = "an error can be returned although no mq subscription was requested (sendRequest ignores the error): " + tr.FmtPath(path)
 			}
+			// an entry handed out for subscribing has its event subscription: found (mqSub != nil) or made on this path
+			if ret == "return:ok" && subscribes && !hasKind(path, "subscribe=false") && !hasKind(path, "has-mqsub") && !hasKind(path, "mqSub=") {
+				badMq = "a successful return for a subscribing caller on which the entry's event subscription was neither found nor made: an entry first created by a request (no event subscription) is then served to subscribers that never receive its events: " + tr.FmtPath(path)
+			}
 		}
 		if tr.Trunc {
 			badOK = "path budget exhausted"
@@ -676,6 +707,7 @@ func rulePairCacheCount(c *Ctx) {
 		if ei >= 0 {
 			c.check(badErr == "", fnName(acqFn), "count released on the error return", pos, "error returns are net 0", badErr)
 			c.check(badSub == "", fnName(acqFn), "errors only when subscribe was requested", pos, "every error return passes the true edge of the subscribe parameter (or the function always subscribes)", badSub)
+			c.check(badMq == "", fnName(acqFn), "an entry handed out for subscribing has its event subscription", pos, "mqSub != nil tested, or the subscription made and stored, on every successful subscribing return", badMq)
 		}
 	}
 
@@ -1061,6 +1093,7 @@ func rulePairThrottle(c *Ctx) {
 		return
 	}
 	roots := map[*ssa.Function]bool{}
+	strictMemo := map[string]string{}
 	for _, f := range p.Repo {
 		for _, call := range callsIn(f) {
 			if _, ok := isCallTo(call, add); ok {
@@ -1077,6 +1110,7 @@ func rulePairThrottle(c *Ctx) {
 		c.inst(1)
 		what := "governed request frees its slot exactly once, outside any refusable task"
 		sp := &Spec{InlineHelpers: true}
+		lossy := ""
 		sp.Classify = func(t *Tracer, fr *Frame, in ssa.Instruction) []Ev {
 			if _, ok := isCallTo(in, add); ok {
 				return []Ev{{Kind: "add"}}
@@ -1086,6 +1120,9 @@ func rulePairThrottle(c *Ctx) {
 				if fr.In(func(x *Frame) bool { return x.MayDrop }) {
 					k = "done:in-refusable-task"
 				}
+				if w := strictHops(t, fr, strictMemo, 0); w != "" && lossy == "" {
+					lossy = w
+				}
 				return []Ev{{Kind: k, Stop: true}}
 			}
 			return nil
@@ -1093,6 +1130,9 @@ func rulePairThrottle(c *Ctx) {
 		tr := NewTracer(p, sp, root)
 		tr.Run()
 		bad := ""
+		if lossy != "" {
+			bad = "the continuation that frees the slot runs through a combinator that does not always invoke it: " + lossy + " — the slot leaks and the requests waiting behind it are never sent"
+		}
 		nAdd := 0
 		for _, path := range tr.Paths {
 			na, nd, refusable, dropped := 0, 0, false, false
@@ -1166,4 +1206,89 @@ func (p *Prog) entryRoots(fn *ssa.Function, stop func(*ssa.Function) bool) []*ss
 	}
 	rec(fn, 0)
 	return out
+}
+
+// strictHops checks, for the frame an event lies in, that every combinator the
+// frame chain runs through invokes its continuation on EVERY path — no path
+// (not even one taken only for a disposing connection) returns without running
+// or handing on the continuation. It returns the first offending hop.
+func strictHops(t *Tracer, fr *Frame, memo map[string]string, depth int) string {
+	p := t.P
+	for x := fr; x != nil && x.Parent != nil; x = x.Parent {
+		if x.Via == "" || x.Site == nil {
+			continue
+		}
+		args := callArgs(x.Site.Common())
+		idx := -1
+		for i, a := range args {
+			r := t.Resolve(x.Parent, a)
+			if mc, ok := r.V.(*ssa.MakeClosure); ok && x.Clo != nil && mc == x.Clo {
+				idx = i
+			} else if f, ok := r.V.(*ssa.Function); ok && f == x.Fn && x.Clo == nil {
+				idx = i
+			}
+		}
+		if idx < 0 {
+			continue
+		}
+		var bodies []*ssa.Function
+		if sf := x.Site.Common().StaticCallee(); sf != nil {
+			bodies = append(bodies, sf)
+		} else if n := p.CG.Nodes[x.Parent.Fn]; n != nil {
+			for _, e := range n.Out {
+				if e.Site == x.Site && e.Callee.Func != nil {
+					bodies = append(bodies, e.Callee.Func)
+				}
+			}
+		}
+		for _, b := range bodies {
+			if !p.isRepoFn(b) || len(b.Blocks) == 0 || idx >= len(b.Params) {
+				continue
+			}
+			if why := strictOnce(p, b, idx, memo, depth); why != "" {
+				return why
+			}
+		}
+	}
+	return ""
+}
+
+func strictOnce(p *Prog, fn *ssa.Function, idx int, memo map[string]string, depth int) string {
+	key := fmt.Sprintf("%s#%d", fnName(fn), idx)
+	if w, ok := memo[key]; ok {
+		return w
+	}
+	memo[key] = ""
+	if depth > 4 {
+		return ""
+	}
+	if _, ok := fn.Params[idx].Type().Underlying().(*types.Signature); !ok {
+		return ""
+	}
+	sp := linSpec(p, idx)
+	tr := NewTracer(p, sp, fn)
+	tr.Run()
+	why := ""
+	for _, path := range tr.Paths {
+		n := 0
+		var last *Ev
+		for i, e := range path {
+			if strings.HasPrefix(e.Kind, "consume") {
+				n++
+				last = &path[i]
+			}
+		}
+		if n == 0 {
+			why = fmt.Sprintf("%s has a path that returns without running or handing on its continuation %s: %s", fnName(fn), fn.Params[idx].Name(), tr.FmtPath(path))
+			break
+		}
+		if last != nil && last.Fr != nil {
+			if w := strictHops(tr, last.Fr, memo, depth+1); w != "" {
+				why = w
+				break
+			}
+		}
+	}
+	memo[key] = why
+	return why
 }
